@@ -97,14 +97,20 @@ def scaling_shape(env, g, k, stat):
 ANGLES = [90.0, 97.0, -26.5, 360.0, 725.25]
 
 
-@harness(P, quick=grid(g=["G1", "G2"], a=[90.0, 97.0, -26.5]), thorough=grid(g=["G3", "D6"], a=ANGLES) + grid(g=["G1"], a=[360.0, 725.25]))
-def rotation(env, g, a):
-    """relabel dir -> (dir + a) % 360: non-directional statistics unchanged, moment vector rotates by a, dp shifts by a."""
+@harness(P, quick=grid(g=["G1", "G2"], a=[90.0, 97.0, -26.5], inplace=[False]) + grid(g=["G1"], a=[97.0, 90.0], inplace=[True]), thorough=grid(g=["G3", "D6"], a=ANGLES, inplace=[False, True]) + grid(g=["G1"], a=[360.0, 725.25], inplace=[False]))
+def rotation(env, g, a, inplace):
+    """relabel dir -> (dir + a) % 360: non-directional statistics unchanged, moment vector rotates by a, dp shifts by a.
+    inplace: the relabelling is an in-place coordinate assignment on an object whose statistics were already used."""
     da, vals = mk_spec(env, g)
     f, d = da.freq.values, da.dir.values
     E = rows(vals)
     env.assume(total(vals) > 0)
-    db = da.assign_coords(dir=(d + a) % 360)
+    if inplace:
+        db = xr.DataArray(vals.copy(), dims=da.dims, coords=da.coords, name="efth")
+        db.spec.dm(), db.spec.hs(), db.spec.momd(1), db.spec.dspr()   # earlier calls on the same object
+        db["dir"] = (d + a) % 360
+    else:
+        db = da.assign_coords(dir=(d + a) % 360)
     tot = total(vals)
     for st in ("hs", "hrms"):
         x, y = item(getattr(da.spec, st)()), item(getattr(db.spec, st)())
@@ -221,7 +227,7 @@ def scale_by_hs(env, g, lead):
         env.assume(total(vals[p]) > 0)
     SA.va, SA.vb = va, vb
     try:
-        with env.stubs(ST.chunk_identity):
+        with env.stubs(ST.chunk_identity, *ST.peak_stubs()):
             out = da.spec.scale_by_hs("va*hs + vb", hs_min=lo, hs_max=hi)
     finally:
         del SA.va, SA.vb
